@@ -44,12 +44,15 @@ def set_env(backend, base):
 
 
 def do_call(call):
-    name, a = call
+    """call = (fn, arg) or (fn, arg, "partial"): the same call spelled through partial application"""
+    name, a = call[0], call[1]
+    if len(call) > 2 and call[2] == "partial":
+        return verif_thr.FNS[name].partial(a)()
     return verif_thr.FNS[name](a)
 
 
 def outcome_ok(call, result, exc):
-    name, a = call
+    name, a = call[0], call[1]
     bad = (name == "tf" and a == 13)
     if bad:
         return isinstance(exc, ValueError) and "unlucky 13" in str(exc)
@@ -129,13 +132,13 @@ def run_schedule(sc, sched, seqs):
             def fn():
                 for call in calls:
                     call = tuple(call)
-                    log("Start", i, call)
+                    log("Start", i, call[:2])
                     res, exc = None, None
                     try:
                         res = do_call(call)
                     except Exception as e:
                         exc = e
-                    log("End", i, call, outcome_ok(call, res, exc),
+                    log("End", i, call[:2], outcome_ok(call, res, exc),
                         "" if (exc is None or outcome_ok(call, res, exc)) else type(exc).__name__,
                         "" if exc is None else str(exc)[:120])
             return fn
@@ -161,14 +164,14 @@ def run_schedule(sc, sched, seqs):
         called = []
         for calls in sc["threads"]:
             for c in calls:
-                for k in verif_thr.needed_keys(tuple(c)):
+                for k in verif_thr.needed_keys(tuple(c[:2])):
                     if kid(k) not in called:
                         called.append(kid(k))
         events.append({"op": "Quiesce", "deadlock": bool(ctrl.deadlock), "proj": p, "called": called,
                        "entsorted": sorted(p["ent"], key=lambda e: e["k"]), "seq": seqs})
         warm = []
         for c in sc.get("warm", []):
-            for k in verif_thr.needed_keys(tuple(c)):
+            for k in verif_thr.needed_keys(tuple(c[:2])):
                 if kid(k) not in warm:
                     warm.append(kid(k))
         return {"cfg": {"warm": warm, "budget": sc.get("budget", 0), "scenario": sc.get("name", "")},
